@@ -46,6 +46,16 @@ CLAIMED["C19"] = dict(
     design_ref="DESIGN.md §4 C19",
 )
 
+CLAIMED["C18"] = dict(
+    engine="symx",
+    technique="symbolic execution of ReadImports/importReader (with bufio.Reader and bytes.Reader) from go/ssa; z3 decides all separator/comment/path bytes; go/parser cross-check on replayed witnesses",
+    text=("ReadImports and the importReader state machine are executed symbolically. Valid files are generated from token skeletons whose separator slots, comment bodies, aliases and path "
+          "literals are solver variables; the import list and the end of the import section are known by construction (and re-derived with go/parser on each natively replayed witness). "
+          "Asserted: same imports in order, result is a prefix of the input (BOM aside) covering the import section. For arbitrary bytes: no panic, prefix property, and whole-input "
+          "return when syntax errors are not requested."),
+    design_ref="DESIGN.md §4 C18",
+)
+
 NOT_APPLICABLE = {
     "C20": "goproxytest's behaviour lives in net/http, archive/zip+flate, encoding/json (reflection) and directory walks; none is encodable by the SSA symbolic executor, and with them stubbed nothing solver-relevant remains (its once-per-key ingredient is par.Cache = C10)",
 }
